@@ -233,9 +233,10 @@ def run(ctx: Ctx) -> None:
         "(model tied by the `inline` differential runs), and with the emphasis rule (scanDelims, tokenize, balance_pairs, _postProcess: "
         "Props/C01f.lean iok_emphasis, iok_strike, emini_total, smini_total — strikethrough with its lone-marker swap included —, for every character classification), and with autolink, html_inline, entity (Props/C01g.lean "
         "iok_autolink, iok_htmlInline, iok_entity, xmini_total; their regular expressions are translated from the live pattern objects, tie `inlinex` + `rx`). "
-        "and with the link rule (Props/C01i.lean link_total: skipToken's memo, label/destination/title parsing, references, nested tokenize, delimiter scopes; tie `inlinel`). "
+        "and with the link rule (Props/C01i.lean link_total: skipToken's memo, label/destination/title parsing, references, nested tokenize, delimiter scopes; tie `inlinel`) "
+        "and with the image rule (Props/C01j.lean image_total: the nested run of the whole inline parser on the description; eleven of twelve inline rules; tie `inlinei`). "
         "For all other rules (table, reference; "
-        "image, linkify) the contracts are monitored on every call on the implementation, not proved",
+        "linkify) the contracts are monitored on every call on the implementation, not proved",
         "renderer totality follows from structural recursion on tokens in the renderer model (C04); CPython's real stack "
         "limit, memory and `re` engine time are not exhibited by the model: covered by the per-input time limit and the deep-"
         "nesting probes",
